@@ -123,6 +123,19 @@ def tamperings(k, others, rng):
     if len(k.id) > 1 and n and k.chains[0][1]:
         t = k.copy(); t.id = k.id[:-1]; t.chains[0] = (k.id[-1] + k.chains[0][0], k.chains[0][1]); yield 'last marker moved into the first right name', t
     for o in others:
+        if o.id == k.id:
+            # another VERSION of the same user's key (before / after a refresh, with or without the old secrets): splices
+            od = dict(o.chains)
+            t = k.copy(); t.chains = [(r, ks + [q for q in od.get(r, []) if q not in ks]) for r, ks in k.chains]
+            if t.chains != k.chains: yield 'secrets of another version of the same key appended to every chain', t
+            t = k.copy(); t.chains = [(r, [q for q in od.get(r, []) if q not in ks] + ks) for r, ks in k.chains]
+            if t.chains != k.chains: yield 'secrets of another version of the same key put in front of every chain', t
+            for i, (r, ks) in enumerate(k.chains):
+                extra = [q for q in od.get(r, []) if q not in ks]
+                if extra:
+                    t = k.copy(); t.chains[i] = (r, ks + extra); yield 'secrets of another version of the same key appended to one chain', t
+            t = o.copy(); t.sig = k.sig; yield 'body of another version of the same key under this signature', t
+            continue
         t = k.copy(); t.sig = o.sig; yield 'signature of another issued key', t
         t = k.copy(); t.id = list(o.id); yield 'identifier of another issued key', t
         t = k.copy(); t.chains = t.chains + [c for c in o.chains if c[0] not in [r for r, _ in k.chains]]; yield 'rights of another issued key added', t
@@ -152,6 +165,9 @@ def run(ctx):
             elif kind == 'MSK2': msk2 = h
             elif kind == 'KEY': keys.append(bytes.fromhex(h))
             elif kind == 'KEY2': keys2.append(bytes.fromhex(h))
+        if msk is None or not keys:
+            ctx.ob('correspondence', f'round {rd}: the scenario (generate, rekey, refresh with and without the old secrets) runs through', False, 'the harness scenario failed: an honest generate / rekey / refresh sequence was refused or panicked')
+            break
         ask('MSK ' + msk)
         parsed = [K(b) for b in keys]
         for k, b in zip(parsed, keys): assert k.build() == b, 'harness USK parser/builder is not the identity'
@@ -160,6 +176,7 @@ def run(ctx):
         for ki, k in enumerate(parsed):
             if ctx.quick() and ki % 2 == 1 and ki > 4: continue
             others = [parsed[(ki + 1) % len(parsed)], parsed[(ki + 5) % len(parsed)]]
+            others = [o for o in others if o.id != k.id] + [q for q in parsed if q.id == k.id and q is not k]
             for what, t in tamperings(k, others, ctx.rng):
                 tb = t.build()
                 if tb == keys[ki]: continue
